@@ -35,6 +35,8 @@ func main() {
 		os.Exit(cmdJob(os.Args[2:]))
 	case "check":
 		os.Exit(runner.CmdCheck(os.Args[2:]))
+	case "replay":
+		os.Exit(runner.CmdReplay(os.Args[2:]))
 	default:
 		fmt.Fprintln(os.Stderr, "unknown command")
 		os.Exit(2)
